@@ -34,6 +34,7 @@ import (
 	"golang.org/x/net/idna"
 	"golang.org/x/text/secure/precis"
 	"golang.org/x/text/unicode/norm"
+	"golang.org/x/text/width"
 	"verifkit/prng"
 	"verifkit/rep"
 )
@@ -182,28 +183,128 @@ func (c *cfgCase) entitled(userCanon, addrCanon string) bool {
 	return false
 }
 
-// fullNormalizer says whether a from_normalize setting maps every spelling the
-// harness generates onto the canonical one (RFC 8265 case mapping + IDN
-// U-label form). Under the weaker settings a non-canonical spelling is, by
-// the administrator's choice, a different string: it misses the prepare_email
-// key of its class and is then matched as it is.
-func fullNormalizer(n string) bool { return n == "auto" || n == "precis_casefold_email" }
+// ---- documented normalisation functions (reference) ----
+//
+// docs/reference/checks/authorize_sender.md (auth_normalize / from_normalize):
+//   auto                   precis_casefold_email for valid emails, precis_casefold otherwise
+//   precis_casefold_email  PRECIS UsernameCaseMapped profile + U-labels form for domain
+//   precis_casefold        PRECIS UsernameCaseMapped profile for the entire string
+//   precis_email           PRECIS UsernameCasePreserved profile + U-labels form for domain
+//   precis                 PRECIS UsernameCasePreserved profile for the entire string
+//   casefold               Convert to lower case
+//   noop                   Nothing
+// "PRECIS profiles ... CaseMapped profiles also convert strings to lower case."
+// RFC 8265: both profiles map fullwidth/halfwidth characters to their
+// decomposition mapping and apply NFC; only the CaseMapped one lower-cases.
+// A U-label is lower case and NFC by definition (RFC 5890). The reference
+// re-implements exactly these documented foldings with x/text (width, norm),
+// strings.ToLower and the harness' own A-label table - never with maddy code.
+// Under a case-PRESERVING setting two spellings that differ in case are
+// different identities: accepting one for the other is "accepted although not
+// entitled".
 
-// entitledSpelled is the reference for one spelled address. With a full
-// normaliser (or the canonical spelling) it is exactly entitled(); otherwise
-// acceptance is also legitimate when the address is entitled without
-// prepare_email (the liberal bound for the weak setting).
-func (c *cfgCase) entitledSpelled(userCanon string, a name, spelling string) bool {
-	if c.entitled(userCanon, a.canon()) {
-		return true
+func foldWidthNFC(s string) string { return norm.NFC.String(width.Fold.String(s)) }
+
+func foldAll(s string) string { return norm.NFC.String(strings.ToLower(foldWidthNFC(s))) }
+
+func uLabel(dom string) string {
+	l := strings.ToLower(dom)
+	for _, d := range domains {
+		if d.alabel != "" && d.alabel == l {
+			return d.canon
+		}
 	}
-	if fullNormalizer(c.fromNorm) || spelling == a.canon() || c.pKind == "identity" {
+	return norm.NFC.String(strings.ToLower(norm.NFC.String(dom)))
+}
+
+// docNormalize returns the documented normal form; ok=false when the setting
+// is documented for e-mail addresses only and s is none (maddy then refuses).
+func docNormalize(fn, s string) (string, bool) {
+	i := strings.LastIndexByte(s, '@')
+	email := i > 0 && i < len(s)-1
+	if fn == "auto" {
+		if email {
+			fn = "precis_casefold_email"
+		} else {
+			fn = "precis_casefold"
+		}
+	}
+	switch fn {
+	case "precis_casefold_email":
+		if !email {
+			return "", false
+		}
+		return foldAll(s[:i]) + "@" + uLabel(s[i+1:]), true
+	case "precis_casefold":
+		return foldAll(s), true
+	case "precis_email":
+		if !email {
+			return "", false
+		}
+		return foldWidthNFC(s[:i]) + "@" + uLabel(s[i+1:]), true
+	case "precis":
+		return foldWidthNFC(s), true
+	case "casefold":
+		return strings.ToLower(s), true
+	case "noop":
+		return s, true
+	}
+	return "", false
+}
+
+// entitledExact is the reference for one spelled identity and one spelled
+// address under the configured normalisers: the documented normal forms go
+// through the documented table semantics. entitled() (on canonical names) is
+// the same function for spellings every setting leaves alone.
+func (c *cfgCase) entitledExact(userSpelled, addrSpelled string) bool {
+	u, ok := docNormalize(c.authNorm, userSpelled)
+	if !ok {
 		return false
 	}
-	saved := c.pKind
-	c.pKind = "identity"
-	defer func() { c.pKind = saved }()
-	return c.entitled(userCanon, a.canon())
+	f, ok := docNormalize(c.fromNorm, addrSpelled)
+	if !ok {
+		return false
+	}
+	return c.entitled(u, f)
+}
+
+// cleanedDomain is what the SMTP endpoints do to MAIL FROM before any check
+// sees it (session.go: domain converted to its U-label form).
+func cleanedDomain(addr string) string {
+	i := strings.LastIndexByte(addr, '@')
+	if i <= 0 || i == len(addr)-1 {
+		return addr
+	}
+	return addr[:i] + "@" + uLabel(addr[i+1:])
+}
+
+// spellingCause names why an address of an entitled CLASS is not entitled as
+// spelled (cause class for signatures).
+func (c *cfgCase) spellingCause(userSpelled, userCanon, addrSpelled, addrKinds string) string {
+	if f, ok := docNormalize(c.fromNorm, addrSpelled); ok {
+		if u, ok2 := docNormalize(c.authNorm, userCanon); ok2 && c.entitled(u, f) {
+			return "identity-spelling-not-folded-by-auth_normalize=" + c.authNorm
+		}
+	}
+	dims := map[string]bool{}
+	for _, k := range strings.FieldsFunc(addrKinds, func(r rune) bool { return r == '+' || r == '-' }) {
+		switch k {
+		case "upper", "mixed":
+			dims["case"] = true
+		case "nfd":
+			dims["nfd"] = true
+		case "wide":
+			dims["width"] = true
+		case "alabel":
+			dims["idn"] = true
+		}
+	}
+	var ds []string
+	for d := range dims {
+		ds = append(ds, d)
+	}
+	sort.Strings(ds)
+	return "address-spelling-not-folded-by-from_normalize=" + c.fromNorm + "/" + strings.Join(ds, "+")
 }
 
 func genConfig(p *prng.R) *cfgCase {
@@ -547,13 +648,13 @@ func (c *cfgCase) pickAddr(p *prng.R, ent, foreign []name, wantEntitled bool) (n
 	return prng.Pick(p, foreign), false
 }
 
-func (c *cfgCase) addrField(p *prng.R, userCanon, key string, n int, group bool, ent, foreign []name, entProb int, decoyPool []name) field {
+func (c *cfgCase) addrField(p *prng.R, userSpelled, userCanon, key string, n int, group bool, ent, foreign []name, entProb int, decoyPool []name) field {
 	f := field{Key: key}
 	var parts []string
 	for j := 0; j < n; j++ {
 		a, _ := c.pickAddr(p, ent, foreign, p.Chance(entProb, 10))
 		sp, kinds := a.spell(p)
-		isEnt := c.entitledSpelled(userCanon, a, sp)
+		isEnt := c.entitledExact(userSpelled, sp)
 		decoy := prng.Pick(p, decoyPool)
 		dsp, _ := decoy.spell(p)
 		txt, deco := renderMailbox(p, sp, dsp)
@@ -561,6 +662,9 @@ func (c *cfgCase) addrField(p *prng.R, userCanon, key string, n int, group bool,
 		mb := mailbox{Addr: a, Class: a.canon(), Spelling: sp, Kinds: kinds, Deco: deco, Entitled: isEnt}
 		if !isEnt {
 			mb.Relation = c.relation(userCanon, a)
+			if c.entitled(userCanon, a.canon()) {
+				mb.Relation = c.spellingCause(userSpelled, userCanon, sp, kinds)
+			}
 		}
 		f.Boxes = append(f.Boxes, mb)
 	}
@@ -584,11 +688,10 @@ func (c *cfgCase) addrField(p *prng.R, userCanon, key string, n int, group bool,
 
 var malformedValues = []string{"", "<>", "garbage without address", "@example.org", "alice@", "=?utf-8?q?alice=40example.org?=", "undisclosed-recipients:;", "<alice@example.org", "a@b@c"}
 
-func (c *cfgCase) genMessage(p *prng.R, user name, authenticated bool, mfEntProb int) *message {
-	m := &message{UserClass: user.canon()}
-	if authenticated {
-		m.AuthUser, _ = user.spell(p)
-	}
+// genMessage builds one message for identity `user` authenticated under the
+// spelling authUser ("" = not authenticated).
+func (c *cfgCase) genMessage(p *prng.R, user name, authUser string, mfEntProb int) *message {
+	m := &message{UserClass: user.canon(), AuthUser: authUser}
 	ent, foreign := c.partition(user.canon())
 	all := c.addrs
 
@@ -597,10 +700,17 @@ func (c *cfgCase) genMessage(p *prng.R, user name, authenticated bool, mfEntProb
 	case 0:
 		a, _ := c.pickAddr(p, ent, foreign, p.Chance(mfEntProb, 20))
 		m.MailFrom, m.MFKinds = a.spell(p)
-		m.MFClass, m.MFEntitled, m.MFJudged = a.canon(), c.entitledSpelled(user.canon(), a, m.MailFrom), true
+		m.MFClass, m.MFEntitled, m.MFJudged = a.canon(), c.entitledExact(authUser, m.MailFrom), true
+		if c.e2e && !m.MFEntitled {
+			// the endpoint rewrites the domain to its U-label form first
+			m.MFEntitled = c.entitledExact(authUser, cleanedDomain(m.MailFrom))
+		}
 		m.mfAddr = a
 		if !m.MFEntitled {
 			m.MFRelation = c.relation(user.canon(), a)
+			if c.entitled(user.canon(), a.canon()) {
+				m.MFRelation = c.spellingCause(authUser, user.canon(), m.MailFrom, m.MFKinds)
+			}
 		}
 	case 1:
 		// The null reverse-path is not an address; it is judged only for users
@@ -642,13 +752,13 @@ func (c *cfgCase) genMessage(p *prng.R, user name, authenticated bool, mfEntProb
 		if j > 0 {
 			entProb = 3
 		}
-		f := c.addrField(p, user.canon(), key, n, p.Chance(1, 10), ent, foreign, entProb, all)
+		f := c.addrField(p, m.AuthUser, user.canon(), key, n, p.Chance(1, 10), ent, foreign, entProb, all)
 		fields = append(fields, f)
 		m.From = append(m.From, f)
 	}
 	for j := 0; j < nSender; j++ {
 		key := prng.Pick(p, senderKeys)
-		f := c.addrField(p, user.canon(), key, 1, false, ent, foreign, 5, all)
+		f := c.addrField(p, m.AuthUser, user.canon(), key, 1, false, ent, foreign, 5, all)
 		m.Sender = append(m.Sender, f)
 		// position relative to From is random
 		pos := p.Intn(len(fields) + 1)
@@ -776,7 +886,16 @@ func runDirect(t *testing.T, r *rep.Reporter, c *rep.Case, idx int) {
 	for mi := 0; mi < perCase; mi++ {
 		user := cfg.pickUser(p, cfg.users)
 		authenticated := !p.Chance(1, 10)
-		m := cfg.genMessage(p, user, authenticated, 14)
+		authUser := ""
+		if authenticated {
+			kinds := localKinds
+			_ = kinds
+			authUser, _ = user.spell(p)
+			if p.Chance(1, 3) {
+				authUser = user.canon() // keep the canonical identity frequent under case-preserving settings
+			}
+		}
+		m := cfg.genMessage(p, user, authUser, 14)
 		raw := m.raw()
 		hdr, err := textproto.ReadHeader(bufio.NewReader(strings.NewReader(raw)))
 		if err != nil {
@@ -834,7 +953,7 @@ func runDirect(t *testing.T, r *rep.Reporter, c *rep.Case, idx int) {
 			k.senderPass++
 			if m.MFJudged && !m.MFEntitled {
 				cause := m.MFRelation
-				if m.mfAddr.local != "" && m.MailFrom != m.mfAddr.canon() {
+				if m.mfAddr.local != "" && m.MailFrom != m.mfAddr.canon() && !strings.Contains(cause, "-spelling-not-folded-by-") {
 					// attribution: is the canonical spelling refused?
 					st2, _ := chk.CheckStateForMsg(ctx, meta)
 					if !passed(st2.CheckSender(ctx, m.mfAddr.canon())) {
@@ -859,6 +978,9 @@ func runDirect(t *testing.T, r *rep.Reporter, c *rep.Case, idx int) {
 		} else if m.MFJudged {
 			k.senderRejectForeign++
 			nontrivial = true
+			if strings.Contains(m.MFRelation, "-spelling-not-folded-by-") {
+				r.Count("checksender_reject_spelling_variant_the_normalizer_does_not_fold", 1)
+			}
 		}
 		// header clause
 		switch {
